@@ -309,7 +309,7 @@ type shandler struct {
 }
 
 func (h *shandler) Name() string {
-	if h.kind == "npanic" {
+	if h.kind == "npanic" || strings.HasPrefix(h.kind, "gkeyn:") {
 		panic("name panic")
 	}
 	return "scripted" + strconv.Itoa(h.idx)
@@ -343,8 +343,11 @@ func (h *shandler) Generate(p *csr.ReqParam) ([]csr.AgentKey, error) {
 		panic("generate panic")
 	case "gempty":
 		return nil, nil
-	case "gkey":
+	case "gkey", "gkeyn": // gkeyn: authenticates and generates, but its Name() panics
 		n, _ := strconv.Atoi(f[1])
+		if f[0] == "gkeyn" {
+			f = []string{"gkey", f[1], "-", "0"}
+		}
 		k := &skey{addErr: f[2], addPanic: f[3] == "1", pub: lk("L4").signer.PublicKey(), idx: h.idx}
 		for i := 0; i < n; i++ {
 			k.csrs = append(k.csrs, &proto.SSHCertificateSigningRequest{KeyMeta: &proto.KeyMeta{Identifier: "scripted"}, Principals: []string{"s"},
